@@ -32,8 +32,9 @@ META = {
     "level_note": "Trusted: Coq kernel + vm_compute; Go harness harness/cmd/contain (sandbox, snapshots, tar generation); the OS and "
                   "Go stdlib semantics of lstat/mkdir/symlink/open/MkdirAll/EvalSymlinks/WalkDir are MODELLED (Model.v walk, "
                   "mk_prefixes) and tied only by the correspondence; go-containerregistry mutate.Extract (squashing) is an oracle: "
-                  "the model consumes the flattened stream it produced. Not modelled: SymlinkIgnore mode, relative target "
-                  "directories, non-ASCII names, concurrent processes. Scan half: oracle only (labelled partial).",
+                  "the model consumes the flattened stream it produced. SymlinkRetain and SymlinkIgnore are both modelled (kread from the "
+                  "working directory for relative targets). Not modelled: relative target directories (every path would be cwd-relative, "
+                  "filepath.Abs/EvalSymlinks return forms differ), non-ASCII names, concurrent processes. Scan half: oracle only (partial).",
     "design_ref": "DESIGN.md section 5 C06",
 }
 
@@ -168,7 +169,7 @@ def run(ctx):
         idx["ucases" if op.startswith("unpack") else "lcases" if op.startswith("image") else "pcases"].append(i)
     res = eval_chunks(ctx, vfile, tag=run_tag)
     for fn in os.listdir(d):
-        if fn.startswith(run_tag + "_"):
+        if fn.startswith(run_tag + "_") or fn.startswith("." + run_tag + "_"):
             try:
                 os.remove(os.path.join(d, fn))
             except OSError:
@@ -295,7 +296,7 @@ def run(ctx):
         "oracle: go-containerregistry mutate.Extract / tarball (squashing, image encoding); archive/tar reader",
         "uuid marker of TargetOutsideRoot replaced by a fixed fresh marker in the model",
         "scan half: snapshot oracle only, no model (partial)"])
-    ctx.assumptions += ["target directory is passed as an absolute path; SymlinkResolution = SymlinkRetain",
+    ctx.assumptions += ["target directory is passed as an absolute path; SymlinkResolution = SymlinkRetain or SymlinkIgnore",
                         "Requirer = FileRequirerAll in the harness (the model keeps the requirer as a parameter)",
                         "ExtractDir is a fresh os.MkdirTemp directory (hypothesis of layer_run_contained)",
                         "names and link targets are ASCII without NUL"]
